@@ -13,7 +13,7 @@ class C07(Prop):
             "clock steps); every output packet is traced back to the simulated connection and to the tap frames of the "
             "record/datagram it carries; non-trivial = at least one data packet was exported; distinct = spec digests")
     reach = ["ipv6", "record_spans_3_packets", "duplicate_segment", "timestamp_tie", "clock_step_back", "clock_step_fwd",
-             "quic_datagram", "multi_conn", "coarse_clock"]
+             "quic_datagram", "multi_conn", "coarse_clock", "quic_cross_direction_tie"]
 
     def plan(self, tier):
         p = super().plan(tier)
@@ -36,8 +36,11 @@ class C07(Prop):
             for _ in range(R.range(1, 3)):
                 steps.append([R.below(max(1, n)), R.choice([-1, 1]) * R.choice([1, 17, 1000, 999999, 3600000000, 86400000000])])
             tap["steps"] = steps
-        if R.chance(15):
-            tap["res_us"] = R.choice([10, 1000])
+        if R.chance(25):
+            tap["res_us"] = R.choice([10, 1000, 1000, 10000])
+            for c in spec["conns"]:
+                if c["proto"] == "quic":
+                    c["unique_ts"] = "per_direction"
         return spec
 
     def check(self, lane, spec):
@@ -203,6 +206,13 @@ class C07(Prop):
             out.count("fault:clock_step")
         if spec.get("tap", {}).get("res_us", 1) > 1:
             out.count("reach:coarse_clock")
+            for c in ex["truth"]["conns"]:
+                if c["proto"] == "quic":
+                    seen = {}
+                    for f in c["frames"]:
+                        if f["ts"] in seen and seen[f["ts"]] != f["d"]:
+                            out.count("reach:quic_cross_direction_tie")
+                        seen[f["ts"]] = f["d"]
         if len(spec["conns"]) > 1:
             out.count("reach:multi_conn")
         for conn, t in zip(spec["conns"], ex["truth"]["conns"]):
